@@ -124,6 +124,8 @@ def pdu_config(cfg, direction=None):
         crc_flag=L.CrcFlag(cfg["crc"]),
         seg_ctrl=L.SegmentationControl(cfg.get("segctrl", 0)),
     )
+    if direction is None:
+        direction = cfg.get("caller_dir")  # the direction the CALLER's configuration carries (the PDU classes put in their own)
     if direction is not None:
         conf.direction = L.Direction(direction)
     return conf
@@ -599,7 +601,7 @@ class Failure:
         self.clause, self.subject, self.kind, self.observed, self.expected = clause, subject, kind, observed, expected
 
 
-OPS_PER_CASE = 14
+OPS_PER_CASE = 16
 _LAST = {}  # objects produced by the most recent evaluate(): handed to the independence oracle by judge()
 
 
@@ -643,6 +645,15 @@ def evaluate(unit, recipe, via="class", encode_side=True):
             return Failure("encode", kind + ".packet_len", "exception", repr(e), None)
         if lens != (len(ref), len(ref) - hlen):
             return Failure("encode", kind + ".packet_len", "packet_len/pdu_data_field_len", lens, (len(ref), len(ref) - hlen))
+        # the direction bit of a PDU is fixed by its kind (the standard's "toward file receiver / sender"), whatever direction the
+        # caller's configuration object happens to carry (e.g. the configuration of the PDU just received)
+        if kind != "PduHeader" and "caller_dir" not in cfg:
+            try:
+                raw2 = bytes(unit._build(dict(cfg, caller_dir=1), p).pack())
+            except Exception as e:
+                return Failure("encode", kind + ".pack", "exception/caller-direction=1", repr(e), ref)
+            if raw2 != ref:
+                return Failure("encode", kind + ".pack", "octets/caller-direction=1", raw2, ref)
     subject = kind + ".unpack" if via == "class" else f"PduFactory.from_raw({kind})"
     # the decoder is handed a mutable receive buffer which the caller re-uses (overwrites) as soon as the call returns:
     # a decoded PDU is a value, it must not keep looking into the caller's buffer
